@@ -285,3 +285,18 @@ def gen_long(ctx):
 
 
 UNITS.append(Unit("long", gen_long, check_string, shards=(1, 4)))
+
+
+def gen_atheris(ctx):
+    """coverage-guided campaign on parse_label/format_label, reference parser inside the target"""
+    from vlib import fuzzdrv
+    seeds = [] if ctx.shard % 2 == 0 else [b"\x00NP-SBJ=1-2'", b"\x01VP#HD-3", b"\x00*T*-1"]
+    runs = 15000 if ctx.tier == "quick" else 1000000
+
+    def to_case(data):
+        text = "".join(ch for ch in data[1:].decode("utf-8", "ignore").replace("\x00", "") if not ch.isspace())
+        return {"s": text, "sep": "#" if (data[:1] and data[0] & 1) else "-"}
+    fuzzdrv.campaign(ctx, "label", runs, 32 if ctx.tier == "quick" else 96, seeds, to_case, check_string, "atheris-label")
+
+
+UNITS.append(Unit("atheris_label", gen_atheris, check_string, shards=(2, 8)))
